@@ -141,7 +141,7 @@ def _mk(tr, uni, peer):
     return sp
 
 
-def _history(tr, uni, lf, lr, ls, ops, a, b):
+def _history(tr, uni, lf, lr, ls, ops, a, b, ta=None, tb=None):
     ev = Events()
     peer = _Peer(ev)
     sp = _mk(tr, uni, peer)
@@ -169,6 +169,7 @@ def _history(tr, uni, lf, lr, ls, ops, a, b):
         read = staticmethod(peer.read)
         write = staticmethod(peer.write)
     payloads = [a, b, a]
+    given = [a if ta is None else ta, b if tb is None else tb, a if ta is None else ta]   # what the caller passes
     with patched(SB, os=_OS), patched(PS, os=_OS, select_ignore_interrupts=sel), \
             patched(FD, os=_OS, select_ignore_interrupts=sel), patched(PO, time=Clock(0)):
         for k, op in enumerate(ops):
@@ -179,12 +180,12 @@ def _history(tr, uni, lf, lr, ls, ops, a, b):
                 logged('read', got)
             elif op == 1:
                 p = payloads[k]
-                sp.send(p)
+                sp.send(given[k])
                 logged('send', p)
                 want.append(('peer', 'write', None))
             elif op == 2:
                 p = payloads[k]
-                sp.sendline(p)
+                sp.sendline(given[k])
                 if tr == 2:
                     logged('send', p)
                     want.append(('peer', 'write', None))
@@ -220,15 +221,20 @@ def _history(tr, uni, lf, lr, ls, ops, a, b):
 
 
 @obligation(params=dict(tr=Int(0, 3), uni=Bool(), lf=Bool(), lr=Bool(), ls=Bool(), o0=Int(0, 3), o1=Int(0, 3), o2=Int(0, 3),
-                        a=Text(2), b=Text(2)),
+                        a=Text(2), b=Text(2), astext=Bool()),
             tags={2: 'pty', 3: 'fd', 4: 'piped subprocess', 5: 'socket'}, timeout=900, split=('tr', 'uni'),
             note='three operations out of read/send/sendline/sendcontrol, symbolic log configuration, symbolic text payloads')
-def L1_transcript(tr, uni, lf, lr, ls, o0, o1, o2, a, b):
+def L1_transcript(tr, uni, lf, lr, ls, o0, o1, o2, a, b, astext=False):
     tr = pick(tr, 0, 3)
     if not uni:
         if not a.isascii() or not b.isascii():
             return SKIP
+        ta, tb = a, b
         a, b = a.encode('ascii'), b.encode('ascii')
+        if astext:
+            # text handed to a bytes-mode object: the peer AND the logs get the encoded bytes (the log has the
+            # string type of the API)
+            return _history(tr, uni, lf, lr, ls, [pick(o0, 0, 3), pick(o1, 0, 3), pick(o2, 0, 3)], a, b, ta, tb)
     return _history(tr, uni, lf, lr, ls, [pick(o0, 0, 3), pick(o1, 0, 3), pick(o2, 0, 3)], a, b)
 
 
@@ -249,6 +255,8 @@ def dry_runs():
         for uni in (False, True):
             yield 'L1_transcript', dict(tr=tr, uni=uni, lf=True, lr=True, ls=True, o0=0, o1=2, o2=1, a='ab', b='c')
     yield 'L1_transcript', dict(tr=0, uni=True, lf=True, lr=False, ls=True, o0=3, o1=0, o2=3, a='ab', b='c')
+    for tr in range(4):
+        yield 'L1_transcript', dict(tr=tr, uni=False, lf=True, lr=True, ls=True, o0=1, o1=2, o2=0, a='ab', b='c', astext=True)
 
 
 PROBES = ['transports']      # representation probes (harness/probes.py) this harness depends on
